@@ -307,7 +307,15 @@ def constraint_specs(draw, dim, box=None, symbolic=True):
     elif kind == 'tie':
         j = draw(st.integers(0, dim - 1).filter(lambda k: k != i))
         if box:
-            spec.update(i=i, j=j, a=1.0, b=0.0)      # identical bounds are arranged by the case generator
+            # identical bounds are arranged by some case generators (a=1, b=0); otherwise an affine map that takes side
+            # i into side j (x_j = x_i/2 on [0,2]^2 ...): box_compatible() decides, callers re-check
+            lo_j = F(box[0][j]); hi_j = F(box[1][j])
+            a_, b_ = draw(st.sampled_from([(1.0, 0.0), (1.0, 0.0), (0.5, 0.0), (0.5, None), (-1.0, None), (0.25, None)]))
+            if b_ is None:
+                # place the image of side i at the lower end of side j
+                img = sorted([a_ * lo, a_ * hi])
+                b_ = (lo_j - img[0]) if all(math.isfinite(v) for v in (lo_j, img[0])) else 0.0
+            spec.update(i=i, j=j, a=a_, b=b_)
         else:
             spec.update(i=i, j=j, a=draw(st.sampled_from([1.0, -1.0, 0.5, 2.0])), b=draw(st.sampled_from([0.0, 1.0, -0.5])))
     elif kind == 'symbolic':
@@ -338,7 +346,15 @@ def box_compatible(spec, lo, hi):
         return all(round(lo[i] / g) * g == lo[i] and round(hi[i] / g) * g == hi[i]
                    for i in (range(len(lo)) if spec.get('all') else [spec['i']]))
     if k == 'tie':
-        return F(spec['a']) == 1.0 and F(spec['b']) == 0.0 and lo[spec['i']] == lo[spec['j']] and hi[spec['i']] == hi[spec['j']]
+        a = F(spec['a']); b = F(spec['b']); i = spec['i']; j = spec['j']
+        if a == 1.0 and b == 0.0:
+            return lo[i] == lo[j] and hi[i] == hi[j]
+        # an affine map takes the (finite) side i into side j; exactness: the two image ends are computed as the
+        # constraint computes them
+        if not all(math.isfinite(v) for v in (lo[i], hi[i], lo[j], hi[j])):
+            return False
+        ends = [a * lo[i] + b, a * hi[i] + b]
+        return lo[j] <= min(ends) and max(ends) <= hi[j]
     if k == 'sort':
         return len(set(lo)) == 1 and len(set(hi)) == 1
     if k == 'symbolic':
